@@ -236,7 +236,7 @@ class PathResult:
 
 
 class Explorer:
-    def __init__(self, max_paths=4000):
+    def __init__(self, max_paths=8000):
         self.max_paths = max_paths
         self.stats = {}
 
